@@ -40,7 +40,7 @@ def cmd_explore(a):
             n += 1
             with open(a.out + ".cur", "w") as cf:
                 cf.write(str(seed))
-            faulthandler.dump_traceback_later(240, exit=True)
+            faulthandler.dump_traceback_later(900, exit=True)
             try:
                 if a.enum:
                     from sim import enumerate_faults
